@@ -79,18 +79,17 @@ location (source, line, column, name indices) the first stream gave it.
 The proof composes C02 (the first stream reports true positions), the bridge `attr_of_stream` (chunk attribution = lookup in the
 chunk mappings), C12 (`decode ∘ encode` keeps exactly what lookup sees) and C08 (the splitter attributes like a lookup).
 Hypotheses: the tree satisfies the domain of C02; mapping values are below `2^31`.  That mapped chunks carry text is a theorem
-(`Src.stream_mappedNE`, `Lemmas/MappedNE.lean`) for every tree; only for a SourceMapSource *with an inner map* it is a hypothesis
-(`NEHyp`, vacuous for all other node kinds). -/
+(`Src.stream_mappedNE'`, `Lemmas/MappedNE.lean`) for every tree, the combinator included. -/
 theorem c10_replay_attribution (id : Nat) (inner : Src) (σ : Store)
     (hw : inner.WF) (hp : inner.PosHyp true) (hn : inner.ids.Nodup) (hs : StoreHyp true σ inner.cachedNodes)
     (ha : IsAscii inner.src) (hl : inner.src.length ≤ USIZE_MAX)
-    (hne : inner.NEHyp true) (hsmall : ∀ m ∈ chunkMs (inner.stream ⟨true, false⟩ σ).1.evs, m.small)
+    (hsmall : ∀ m ∈ chunkMs (inner.stream ⟨true, false⟩ σ).1.evs, m.small)
     (hcold : σ.get? (id, ⟨true, false⟩) = none) (hfresh : id ∉ inner.ids) :
     let first := (Src.cached id inner).stream ⟨true, false⟩ σ
     let second := (Src.cached id inner).stream ⟨true, false⟩ first.2
     attrOf second.1.evs = attrOf first.1.evs ∧ evsText second.1.evs = evsText first.1.evs := by
   intro first second
-  have hMN := Src.stream_mappedNE inner true σ hne
+  have hMN := Src.stream_mappedNE' inner true σ
   have hpos := Src.stream_posOK inner true σ hw hp hn hs
   have htok := Src.stream_tok inner true σ
   have htl := Src.stream_tl inner true σ
@@ -133,14 +132,14 @@ theorem c10_replay_names (id : Nat) (inner : Src) (σ : Store)
     (hw : inner.WF) (hp : inner.PosHyp true) (hi : inner.IdxHyp) (hn : inner.ids.Nodup) (hs : StoreHyp true σ inner.cachedNodes)
     (hsi : StoreIdx σ inner.cachedNodes)
     (ha : IsAscii inner.src) (hl : inner.src.length ≤ USIZE_MAX)
-    (hne : inner.NEHyp true) (hsmall : ∀ m ∈ chunkMs (inner.stream ⟨true, false⟩ σ).1.evs, m.small)
+    (hsmall : ∀ m ∈ chunkMs (inner.stream ⟨true, false⟩ σ).1.evs, m.small)
     (hcold : σ.get? (id, ⟨true, false⟩) = none) (hfresh : id ∉ inner.ids)
     (sm : SMap) (hm : mapOfEvs true (inner.stream ⟨true, false⟩ σ).1.evs = some sm) :
     let first := (Src.cached id inner).stream ⟨true, false⟩ σ
     let second := (Src.cached id inner).stream ⟨true, false⟩ first.2
     (attrN emptyS emptyN second.1.evs).map (Option.map RLoc.toN) = (attrN emptyS emptyN first.1.evs).map (Option.map RLoc.toN) := by
   intro first second
-  have hMN := Src.stream_mappedNE inner true σ hne
+  have hMN := Src.stream_mappedNE' inner true σ
   have hpos := Src.stream_posOK inner true σ hw hp hn hs
   have htok := Src.stream_tok inner true σ
   have htl := Src.stream_tl inner true σ
